@@ -6,6 +6,7 @@ with the compression function generated from src/portable.rs (`genK`), for every
 import B3.Proofs.Final
 import B3.Proofs.GenK
 import B3.Proofs.Regions
+import B3.Proofs.Skeleton
 namespace B3.Props.C02
 open B3 B3.Rs
 
@@ -192,5 +193,33 @@ theorem update_subtree_len_spec (n cc : Nat) (hn : 1024 < n) (h2 : n < 2 ^ 63) (
   rw [update_subtree_len_is_model n cc (by omega) h2 h3, e1]
 
 example : Gen.Rs.update_subtree_len 5000 3 = .ok 1024 ∧ Gen.Rs.update_subtree_len 5000 4 = .ok 4096 := by decide
+
+/-! ### the control skeleton of `Hasher`, tied to the source
+
+`Hasher::merge_cv_stack`, `push_cv` and `final_output` are translated from src/lib.rs statement by
+statement on every run (`Gen.Rs.Skel`: `while` loops as fuel loops, `cv_stack.pop().unwrap()` and
+`cv_stack[i]` as operations that panic when the real ones would, u64 arithmetic checked). -/
+
+/-- on every reachable state - any mode, any update history, any input offset - the translated
+`final_output` does not panic and is the model's `finalOutput`, i.e. (by `history_correct`) the root
+node of the specification for the bytes absorbed -/
+theorem final_output_translated (h : Hasher) (m : List UInt8) (hr : Proofs.Rep h m) :
+    Gen.Rs.Skel.final_output (parentOutput h.key h.cs.flags) (chain genK) h.stack h.cs.output h.cs.count
+      = .ok (h.finalOutput genK) :=
+  Proofs.final_output_eq genK h (Proofs.rep_final_ok h m hr)
+
+/-- the translated `merge_cv_stack` / `push_cv` are the model's, and do not panic, whenever the chunk
+counter passed is beyond the hasher's initial one (or the stack is empty) - which is how
+`update_with_join` calls them -/
+theorem merge_push_translated (h : Hasher) (cv : CV) (t : Nat) (h1 : h.t0 ≤ t) (h2 : h.t0 < t ∨ h.stack = []) :
+    Gen.Rs.Skel.merge_cv_stack (parentOutput h.key h.cs.flags) (chain genK) h.stack h.t0 t = .ok (h.mergeCvStack genK t).stack ∧
+    Gen.Rs.Skel.push_cv (parentOutput h.key h.cs.flags) (chain genK) h.stack h.t0 cv t = .ok (h.pushCv genK cv t).stack :=
+  ⟨Proofs.merge_cv_stack_model genK h t h1 h2, Proofs.push_cv_model genK h cv t h1 h2⟩
+
+/-- the one state where the real `merge_cv_stack` panics (second `unwrap` on an empty stack): a single
+entry and a target of zero - stated so that the hypothesis above is seen to be needed -/
+example (x : CV) : Gen.Rs.Skel.merge_cv_stack (parentOutput x 0) (chain genK) [x] 5 5 = .panic := by
+  unfold Gen.Rs.Skel.merge_cv_stack Gen.Rs.Skel.merge_cv_stack_loop Gen.Rs.Skel.merge_cv_stack_loop
+  simp [Arith.csub, Arith.popcnt, Arith.pop, bind]
 
 end B3.Props.C02
